@@ -1,16 +1,16 @@
 #!/bin/bash
-# usage: lib/confirm_seed.sh <worktree> <outdir>  -- confirm a seeded change: suite passes with it, demo fails with it and passes without it
-w=$1; o=$2
+# usage: lib/confirm_seed.sh <worktree> <outdir> [gsd]  -- confirm a seeded change: suite passes with it, demo fails with it and passes without it
+w=$1; o=$2; kind=${3:-core}
 cd $w || exit 2
-git checkout -q -- src; git apply $o/patch.diff || exit 2
-mkdir -p tests; cp $o/seeded_demo.rs tests/seeded_demo.rs
+if [ "$kind" = gsd ]; then src="gsd-parser/src"; tdir="gsd-parser/tests"; pkg="-p gsd-parser"; else src="src"; tdir="tests"; pkg=""; fi
+git checkout -q -- $src; git apply $o/patch.diff || exit 2
+mkdir -p $tdir; rm -f $tdir/seeded_demo.rs
 echo "--- suite with change (demo excluded)"
-mv tests/seeded_demo.rs /tmp/_demo_$$.rs
 cargo test --workspace --no-fail-fast --offline 2>&1 | grep -E "^test result" | awk '{p+=$4; f+=$6} END {print "passed="p" failed="f}'
-mv /tmp/_demo_$$.rs tests/seeded_demo.rs
+cp $o/seeded_demo.rs $tdir/seeded_demo.rs
 echo "--- demo with change"
-cargo test --offline --test seeded_demo 2>&1 | grep -E "^test result" | head -2
-git checkout -q -- src
+cargo test --offline $pkg --test seeded_demo 2>&1 | grep -E "^test result" | head -2
+git checkout -q -- $src
 echo "--- demo without change"
-cargo test --offline --test seeded_demo 2>&1 | grep -E "^test result" | head -2
+cargo test --offline $pkg --test seeded_demo 2>&1 | grep -E "^test result" | head -2
 git apply $o/patch.diff
